@@ -24,3 +24,16 @@ claim(
     'Breaking any decided clause breaks the stated behaviour; holding them does not prove it.',
     'AST consistency rule over linear bound forms + regex language equivalence + table agreement',
 )
+
+claim(
+    'C09',
+    'Decided (necessary conditions): the two alternatives of the combinator token cannot both match at one position '
+    '(exact look-ahead semantics); every unanchored regex search over raw selector text stays inside whitespace; on '
+    'every def-use path from a match group to the IR css_unescape is applied exactly once; every comparison of '
+    'matched text with a letter-bearing constant or table key sees text lower-cased after its last decode; the '
+    ':lang()/:-soup-contains() token grammars agree and their value lists are tiled by RE_VALUES; NEWLINE, WS, '
+    'COMMENTS, CSS_ESCAPES, IDENTIFIER, VALUE and the two escape decoders are language-equivalent to their CSS '
+    'Syntax 3 definitions. Not decided: equality of compiled structures for all respellings at all positions.',
+    'Reference grammars are transcribed from CSS Syntax 3 in the rule pack.',
+    'regex language queries (exclusivity, inclusion, equivalence) + string-provenance dataflow over the handlers',
+)
